@@ -908,4 +908,16 @@ theorem tlFold_every_selection_reachable [DecidableEq α] (q sel rem : List α) 
   simp [tlFoldAuto, hq, ht, hfy]
 
 
+
+/-- the proved part of `runHooksReachesEveryVectorStatement`: ticks / observations with one hook —
+every decision the hook can make when forced is what `run_hooks` produces on the same tape
+(missing: several hooks, which needs a tape-framing lemma per hook kind) -/
+theorem runHooks_reaches_every_vector_partial [DecidableEq κ] (h : Hook κ α) (tape : List Nat)
+    (hidle : h.cur = none) (hcan : h.canNT = true) {nt : Bool} {h1 h2 : Hook κ α} {d1 : Drv}
+    {out : List (Msg κ α)} (ha : h.auto ⟨tape, []⟩ true = some (nt, h1, d1)) (hr : h1.release = some (h2, out)) :
+    runHooks [h] ⟨tape, []⟩ = some ([h2], [out], nt, d1) := by
+  rw [runHooks_single_is_forced h _ hidle hcan]
+  simp [ha, hr]
+
+
 end HvSim
